@@ -338,6 +338,24 @@ class C13(BaseCheck):
             'unindexed': k.random() < 0.4,
             'gc_at': k.choice([None, None, k.randrange(50, 1500)]),
         }
+        if knobs['unindexed'] and knobs['shared_grid']:
+            # the lazily built id index only matters to filters that follow a reference: make sure several
+            # threads open with one (distinct ones where the pool has them) while the index is still unbuilt
+            refs = [i for i, f in enumerate(pool) if f['kind'] == 'ref']
+            if not refs:
+                tags = sorted(spec['tags'])
+                for t in tags:
+                    f = {'kind': 'ref', 't': t}
+                    rows = expected_rows(spec, f)
+                    if rows and len(rows) < nrows and not any(p['rows'] == rows for p in pool):
+                        f['rows'] = rows
+                        pool.append(f)
+                        refs.append(len(pool) - 1)
+                        if len(refs) == 2:
+                            break
+            for ti, t in enumerate(threads):
+                if refs and k.random() < 0.7:
+                    t['ops'].insert(0, {'op': 'filter', 'f': refs[ti % len(refs)]})
         case = {'class': cls, 'grid': spec, 'pool': pool, 'threads': threads, 'knobs': knobs, 'fault': None}
         if cls == 'threads-fault':
             f = rng.stream(run_seed, 'faults')
